@@ -972,6 +972,134 @@ def run_builders(only=None):
     return out
 
 
+# ---- container handles (dicts / lists handed out by accessors), enumerated from the live classes ------
+
+def _zero_arg_accessors(cls):
+    """public properties and methods without required arguments that the class itself defines"""
+    import inspect
+    out = []
+    for name, member in sorted(vars(cls).items()):
+        if name.startswith("_"):
+            continue
+        if isinstance(member, property):
+            out.append((name, "prop"))
+        elif inspect.isfunction(member):
+            ps = list(inspect.signature(member).parameters.values())[1:]
+            if all(p.default is not inspect.Parameter.empty or p.kind in (p.VAR_POSITIONAL, p.VAR_KEYWORD) for p in ps):
+                out.append((name, "call"))
+    return out
+
+
+def _canon(x, depth=0):
+    import nifty.cl as ift
+    if depth > 4:
+        return "..."
+    if isinstance(x, ift.Field):
+        return ["Field", repr(x.domain), np.asarray(x.raw).astype(complex).real.tolist(), np.asarray(x.raw).astype(complex).imag.tolist()]
+    if isinstance(x, ift.AnyArray):
+        return ["AnyArray", np.asarray(x.val).astype(complex).real.tolist(), np.asarray(x.val).astype(complex).imag.tolist()]
+    if isinstance(x, np.ndarray):
+        return ["nd", x.astype(complex).real.tolist(), x.astype(complex).imag.tolist()]
+    if isinstance(x, ift.MultiField):
+        return ["MultiField", [[k, _canon(v, depth + 1)] for k, v in x.items()]]
+    if isinstance(x, dict) or type(x).__name__ == "frozendict":
+        return ["dict", [[repr(k), _canon(v, depth + 1)] for k, v in sorted(x.items(), key=lambda kv: repr(kv[0]))]]
+    if isinstance(x, (list, tuple)):
+        return [type(x).__name__, [_canon(v, depth + 1) for v in x]]
+    if isinstance(x, (int, float, complex, str, bool, type(None), np.generic)):
+        return repr(x)
+    if isinstance(x, (ift.DomainTuple, ift.MultiDomain, ift.Domain, np.dtype, type)):
+        return repr(x)
+    return "<%s>" % type(x).__name__        # iterators, operators ...: identity not observed
+
+
+def _read_all(obj, accessors):
+    out = {}
+    for name, kind in accessors:
+        try:
+            v = getattr(obj, name)
+            if kind == "call":
+                v = v()
+            if hasattr(v, "__next__"):
+                v = list(v)
+            out[name] = _canon(v)
+        except Exception as e:
+            out[name] = "raised " + type(e).__name__
+    if hasattr(obj, "keys") and hasattr(obj, "__getitem__"):
+        try:
+            out["[key]"] = [[k, _canon(obj[k])] for k in obj.keys()]
+        except Exception as e:
+            out["[key]"] = "raised " + type(e).__name__
+    return json.dumps(out, sort_keys=True, default=str)
+
+
+def _mutations(h, spare):
+    """in-place edits of a container handle (exceptions are fine: immutable containers refuse)"""
+    if isinstance(h, dict):
+        ks = list(h.keys())
+        return [("setitem", lambda: h.__setitem__(ks[0], spare)), ("del", lambda: h.__delitem__(ks[-1])),
+                ("new key", lambda: h.__setitem__("zz", spare)), ("update", lambda: h.update({k: spare for k in ks})),
+                ("pop", lambda: h.pop(ks[0])), ("clear", lambda: h.clear())]
+    if isinstance(h, list):
+        return [("setitem", lambda: h.__setitem__(0, spare)), ("append", lambda: h.append(spare)), ("pop", lambda: h.pop()),
+                ("reverse", lambda: h.reverse()), ("clear", lambda: h.clear())]
+    if isinstance(h, set):
+        return [("add", lambda: h.add("zz")), ("clear", lambda: h.clear())]
+    muts = []
+    for name in ("__setitem__", "__delitem__", "clear", "update"):
+        if hasattr(h, name) and not isinstance(h, (np.ndarray, str, bytes)) and type(h).__module__ != "nifty.cl.any_array":
+            if name == "__setitem__":
+                muts.append((name, lambda: h.__setitem__(next(iter(h)), spare)))
+            elif name == "__delitem__":
+                muts.append((name, lambda: h.__delitem__(next(iter(h)))))
+            elif name == "clear":
+                muts.append((name, lambda: h.clear()))
+    return muts
+
+
+def container_probe():
+    """For Field, MultiField, DomainTuple and MultiDomain objects: every container an accessor hands out
+    is edited in place; afterwards every accessor (and indexing) must report what it reported before.
+    yields (case name, edits attempted, failure | None)"""
+    import nifty.cl as ift
+    d1, d2 = ift.RGSpace(3), ift.RGSpace((2, 2))
+    f = ift.Field.from_raw(d1, np.array([1., 2., 3.]))
+    g = ift.Field.from_raw(d2, np.arange(4.).reshape(2, 2) + 1j)
+    objs = {
+        "MultiField": lambda: ift.MultiField.from_dict({"a": f, "b": g}),
+        "MultiField.from_raw": lambda: ift.MultiField.from_raw(ift.MultiDomain.make({"a": d1, "b": d2}),
+                                                               {"a": np.array([1., 2., 3.]), "b": np.ones((2, 2))}),
+        "Field": lambda: ift.Field.from_raw(ift.DomainTuple.make((d1, d2)), np.arange(12.).reshape(3, 2, 2)),
+        "MultiDomain": lambda: ift.MultiDomain.make({"a": d1, "b": d2}),
+        "DomainTuple": lambda: ift.DomainTuple.make((d1, d2)),
+    }
+    spare = ift.AnyArray(np.array([9., 9., 9.]))
+    for oname, make in objs.items():
+        obj0 = make()
+        acc = _zero_arg_accessors(type(obj0))
+        for name, kind in acc:
+            obj = make()
+            birth = _read_all(obj, acc)
+            try:
+                h = getattr(obj, name)
+                if kind == "call":
+                    h = h()
+            except Exception:
+                continue
+            n, fail = 0, None
+            for mname, mut in _mutations(h, spare):
+                n += 1
+                try:
+                    mut()
+                except Exception:
+                    pass
+                if _read_all(obj, acc) != birth:
+                    fail = {"object": oname, "accessor": name, "edit": mname}
+                    break
+            if n:
+                yield "%s.%s" % (oname, name), n, fail
+
+
 class C07(C.Check):
     prop = "C07"
     coq_dir = "C07"
@@ -1095,6 +1223,16 @@ class C07(C.Check):
                 res.add_failing({"what": "field value changed", "ctor": qual, "route": "persistent array/%s" % f["write"]},
                                 "%s (recipe %d): a field / locked array built from caller data changed after '%s' through the array the caller kept" % (qual, idx, f["write"]),
                                 {"kind": "builder", "name": qual, "recipe": idx})
+        ncont = 0
+        for name, k, f in container_probe():
+            n += k
+            ncont += 1
+            if f and nfail < 12:
+                nfail += 1
+                res.add_failing({"what": "field value changed", "ctor": f["object"], "route": "container/%s/%s" % (f["accessor"], f["edit"])},
+                                "%s: after editing the container returned by .%s in place ('%s') the object reports different contents" % (f["object"], f["accessor"], f["edit"]),
+                                {"kind": "container", "name": name})
+        res.coverage["container_handles_edited"] = ncont
         res.coverage["builders_enumerated_from_source"] = len(self.builders)
         res.coverage["builders_with_data_parameters"] = {"recipes": sorted(builder_recipes()), "recipe_runs": nb,
                                                          "exempt": {k: v[:40] for k, v in sorted(BUILDER_EXEMPT.items())}}
@@ -1125,6 +1263,8 @@ class C07(C.Check):
         i = rp["input"]
         if i["kind"] == "history":
             return run_history(i["L"], i["ops"])[1] is not None
+        if i["kind"] == "container":
+            return any(f for name, k, f in container_probe() if name == i["name"])
         if i["kind"] == "builder":
             r = run_builders(only=[i["name"], i["recipe"]])
             if not r:
